@@ -218,6 +218,9 @@ pub enum Op {
     GuessedKeyMessage { peer: u8, to: u8, key: u8, body: ForgedBody },
     /// re-injection of the nth-newest handshake packet a node emitted (0 = the newest)
     ReplayHandshake { nth: u8, from: AddrSel },
+    /// node's application answers a held request with a response of ANOTHER kind (request id intact):
+    /// an empty NODES for a PING or TALK request, a PONG for a FINDNODE
+    RespondOtherKind { node: u8, sel: u16 },
 }
 
 #[derive(Clone, Copy, Debug, PartialEq, Eq, Hash, Serialize, Deserialize)]
@@ -656,6 +659,19 @@ impl World {
             self.responses_given.push((i, addr.clone(), r.clone()));
             let _ = self.nodes[i].vh.to_handler.send(HandlerIn::Response(addr.clone(), Box::new(r)));
         }
+    }
+
+    pub fn respond_other_kind(&mut self, i: usize, addr: NodeAddress, req: Request) {
+        let body = match &req.body {
+            RequestBody::FindNode { .. } => {
+                let port = std::num::NonZeroU16::new(addr.socket_addr.port()).unwrap_or(std::num::NonZeroU16::new(1).unwrap());
+                ResponseBody::Pong { enr_seq: self.nodes[i].enr.seq(), ip: addr.socket_addr.ip(), port }
+            }
+            _ => ResponseBody::Nodes { total: 1, nodes: vec![] },
+        };
+        let r = Response { id: req.id.clone(), body };
+        self.responses_given.push((i, addr.clone(), r.clone()));
+        let _ = self.nodes[i].vh.to_handler.send(HandlerIn::Response(addr, Box::new(r)));
     }
 
     pub fn make_body(&self, b: Body, from: usize) -> RequestBody {
